@@ -51,6 +51,7 @@ def inputs(t, tier):
         for ms in itertools.product(gen.all_masks(n), repeat=3):
             yield (f"mask3/n{n}", gen.rle_block(t, n, list(ms), chans=[1, 0, 9]), {})
     yield ("mem", gen.rle_block(t, 5, [(False, True, False, True, False)]), {"mem": "f8"})
+    yield from gen.partial_frames(t)
     if thorough or t != R.T_FORCE3D:
         yield ("big/n70000", gen.rle_block(t, 70000, [gen.big_mask()]), {})
         m2 = list(gen.big_mask())
@@ -139,7 +140,7 @@ def check_one(sp, opts, acc, tag=""):
                             raise shape.viol(PROP, sp, "gap-frame-not-NaN", tag,
                                              f"{src_name} poison={poison:#x} item {i} field {k}: gap frames read "
                                              f"{a[~present].reshape(-1)[:6]}", k)
-                        if nanrows[present].any():
+                        if (nanrows[present] != np.isnan(want[present])).any():
                             raise shape.viol(PROP, sp, "present-frame-NaN", tag,
                                              f"{src_name} item {i} field {k}", k)
                         if not np.array_equal(a[present].view("<u4"), want[present].view("<u4")):
